@@ -968,5 +968,30 @@ int main(int argc, char **argv) {
                   "stack: N <= 5000 must return; stack exhaustion at N >= 100000 is the known finding F7 (signature json-recursion-depth); nothing is generated in "
                   "between, so no verdict depends on the exact stack size. Non-trivial: every executed case.",
                   gen_deep, run_deep});
+  // the parsers as a daemon runs them: warnings go to syslog (real util/warnp.c, warnp_syslog(1)), and the rejected strings are long enough for the
+  // message to exceed warnp's 4095-character line
+  subs.push_back({"syslog",
+                  "sock_resolve (same oracle as the sub sockres) with the real util/warnp.c in syslog mode on strings whose rejection message is longer than a syslog "
+                  "line: Unix paths of 3000..9000 bytes, [address]:port with 3000..9000 characters of bad address or bad port; control characters and 0x80+ bytes inside. "
+                  "Non-trivial: every case.",
+                  [](int) {
+                    return rc::gen::exec([]() {
+                      Case c;
+                      size_t n = (size_t)ri(3000, 9000);
+                      std::string fill;
+                      for (size_t i = 0; i < n; i++) fill.push_back(chance(1, 40) ? (char)ri(1, 31) : chance(1, 30) ? (char)ri(128, 255) : (char)ri('a', 'z'));
+                      int k = ri(0, 3);
+                      std::string doc = k == 0 ? "/" + fill : k == 1 ? "[" + fill + "]:80" : k == 2 ? "[1.2.3.4]:" + fill : "[::1]:8" + fill;
+                      c.push_back(Op("d", {}, doc));
+                      return c;
+                    });
+                  },
+                  [](const Case &c) {
+                    shim_syslog_mode(1);
+                    Outcome o = run_target(T_SOCKRES, c);
+                    o.nontrivial = true;
+                    o.cls("warnings-to-syslog, message longer than a syslog line");
+                    return o;
+                  }});
   return pbt_main(argc, argv, subs);
 }
